@@ -183,6 +183,7 @@ func Call(c *rosmar.Collection, in In) (out Out) {
 
 // Workload describes one concurrent history.
 type Workload struct {
+	Twins    bool // the first two document keys start out sharing one CAS
 	Clients  int
 	OpsEach  int
 	DocKeys  []string
@@ -197,6 +198,22 @@ func Run(b *Bucket, w Workload, r *rng.R) []Rec {
 	var hist []Rec
 	var wg sync.WaitGroup
 	start := make(chan struct{})
+	if w.Twins && len(w.DocKeys) >= 2 {
+		// two documents start out with one and the same CAS (replicated versions, written through SetWithMeta): a CAS
+		// identifies a version of ONE key, so whatever a client then does to one twin must leave the other alone.
+		// For the model these are two blind writes that completed before the clients start.
+		shared := uint64(time.Now().UnixNano())&^0xFFFF | 0x4242
+		for i, key := range w.DocKeys[:2] {
+			tok := fmt.Sprintf("twin.%d", i)
+			body := fmt.Sprintf(`{"l":[],"v":%q}`, tok)
+			call := Tick.Add(1)
+			err := b.Colls[0].SetWithMeta(ctxBG, key, 0, shared, 0, nil, []byte(body), sgbucket.FeedDataTypeJSON)
+			ret := Tick.Add(1)
+			if err == nil {
+				hist = append(hist, Rec{Client: w.Clients, In: In{Kind: OSet, Key: key, Body: body, Token: tok}, Call: call, Ret: ret})
+			}
+		}
+	}
 	for ci := 0; ci < w.Clients; ci++ {
 		wg.Add(1)
 		cr := rng.New(r.U64(), uint64(ci))
